@@ -358,6 +358,15 @@ impl ShellEnvironment {
     /// * `name` - The name of the array variable to unset an element from.
     /// * `index` - The index of the element to unset.
     pub fn unset_index(&mut self, name: &str, index: &str) -> Result<bool, error::Error> {
+        // Element 0 of a scalar variable is the variable itself.
+        if index == "0"
+            && self
+                .get(name)
+                .is_some_and(|(_, var)| matches!(var.value(), ShellValue::String(_)))
+        {
+            return Ok(self.unset(name)?.is_some());
+        }
+
         if let Some((_, var)) = self.get_mut(name) {
             var.unset_index(index)
         } else {
